@@ -480,7 +480,16 @@ def degree(t, xs, ys, depth=0):
             return (max(d1[0], d2[0]), max(d1[1], d2[1]), d1[2] or d2[2])
         if n in ("coeff_b", "b") and not a:
             return (0, 0, True)
+        if _DEGREE_REPO is not None and depth < 3:
+            # a small straight-line helper of the crate (`x.cubed()`): the degree of what it returns
+            from core.terms import expand_call
+            e = expand_call(_DEGREE_REPO, t, lambda cb: len(cb.blocks) <= 4 and not any(bl["term"]["k"] == "switch" for bl in cb.blocks))
+            if e is not None:
+                return degree(e, xs, ys, depth + 1)
     return None
+
+
+_DEGREE_REPO = None
 
 
 def machine_new_table(prop, repo, R, b):
@@ -581,6 +590,8 @@ def rules_c09(prop, repo):
     if b is None:
         R.fail_closed("%s:new:anchor" % prop, "AffineG::new not found")
         return [R.finish()]
+    global _DEGREE_REPO
+    _DEGREE_REPO = repo
     tb = repo.tb(b)
     atoms = paths.collect_atoms(b, tb)
     curve = [a for a in atoms if a[0] == "ord" or (a[0] == "bool" and a[1][0] == "call" and a[1][1].name in ("eq", "ne"))]
